@@ -29,7 +29,9 @@ TRUSTED = [
     "that each numeric kernel (torch/BLAS/scipy products, neighbourhood selection, embedding look-ups, the `implicit` library) is pointwise is NOT proved: "
     "it is observed by the metamorphic runs (permutation, two halves, repetition) evaluated inside Coq on exact rationals (tolerance 2^-20 relative for "
     "single-precision scores across different evaluation paths, exact equality for repeated calls)",
-    "correspondence harness harness/props/c04.py + harness/c04_impl.py (construction of datasets, queries and candidate lists; exact float->rational conversion)",
+    "correspondence harness harness/props/c04.py + harness/c04_impl.py (construction of datasets, queries and candidate lists; exact float->rational conversion; "
+    "reading the caller's query and candidate list back after every call: the history's (item, rating) pairs are compared inside Coq (`kept_ok`), the remaining "
+    "fields, storage types, object identity and raw buffers by the harness, entering the Coq term as one flag per call)",
     "HPF (hpfrec not installed) is covered by the sites table only",
 ]
 ASSUMPTIONS = [
@@ -40,8 +42,11 @@ RULE = ("structured generator: one scorer x configuration per case (bias: entity
         "item/user k-NN: both feedback modes, small max_nbrs so the truncating path is taken, min_nbrs 1-2; BiasedMF/ImplicitMF: each user-embedding policy, "
         "use_ratings; FunkSVD with/without range; BiasedSVD; FlexMF explicit/implicit, 1-2 epochs; implicit ALS/BPR) trained on a random 3-9 x 3-10 "
         "half-star dataset (optionally with users/items without data); 3-5 queries per case drawn from id / history / both / neither, known and unknown users, "
-        "histories with unknown items or empty, candidate lists with unknown items, empty lists, extra fields, ordered lists, lists given by item number against the dataset vocabulary; integer or string identifiers; each call is also run "
-        "repeated, permuted, as two halves and once more at the end; non-trivial = the scorer trained, at least one call returned >= 2 finite scores and at "
+        "histories with unknown items or empty, histories stored as writable float32 / float64 NumPy arrays, Python lists, Arrow arrays or a torch tensor, optionally with a second "
+        "(timestamp) field; candidate lists with unknown items, empty lists, extra fields, ordered lists, lists given by item number against the dataset vocabulary; "
+        "integer or string identifiers; ONE query object per query is handed to the base call, the repeated call (same candidate list object too), the permuted call, "
+        "the two halves and once more at the end, and after every call the query (user, history ids and every field, storage types, the supplied arrays bit for bit) "
+        "and the candidate list are compared with what was supplied; non-trivial = the scorer trained, at least one call returned >= 2 finite scores and at "
         "least one candidate list contained an unknown item or the query an unknown user/history item; distinct = by hash of the case")
 
 TOL = Fraction(1, 2**20)
@@ -144,6 +149,10 @@ def gen_case(rng, tier):
         q = {"user": user, "history": hist, "items": cands, "by_number": by_number, "perm": rng.shuffle(list(range(len(cands)))),
              "split": rng.randint(0, len(cands)), "extra": rng.chance(1, 2), "ordered": rng.chance(1, 4),
              "form": rng.choice(["query", "query", "id", "list"])}
+        # storage form of the history handed to the scorer (drawn from a fork: the main stream is not advanced)
+        r2 = rng.fork(f"history-form-{len(queries)}")
+        q["hist_form"] = r2.weighted([("f32", 4), ("f64", 3), ("list", 2), ("arrow", 2), ("torch", 1)])
+        q["hist_extra"] = r2.chance(1, 3)
         queries.append(q)
     return {"users": users, "items": items, "ratings": ratings, "seed": rng.randint(0, 2**31 - 1),
             "ids": rng.weighted([("int", 3), ("str", 1)]), "scorer": gen_scorer(rng), "queries": queries}
@@ -185,6 +194,30 @@ def c_obs(o):
     return clist(list(zip(o["ids"], sc)), lambda p: f"({cz(p[0])}, {copt(None if p[1] is None else fparse(p[1]), cq)})")
 
 
+def c_hist(snap):
+    """the (item, rating) pairs of a query snapshot as an `option hist`"""
+    h = snap.get("history")
+    if h is None:
+        return "None"
+    r = h["fields"].get("rating", [None] * len(h["ids"]))
+    r = list(r) + [None] * (len(h["ids"]) - len(r))
+    return "(Some " + clist(list(zip(h["ids"], r)), lambda p: f"({cz(p[0])}, {copt(None if p[1] is None else fparse(p[1]), cq)})") + ")"
+
+
+def rest_kept(supplied, o):
+    """everything of the caller's inputs that is compared outside Coq (see Model/C04_scatter.v, `kept_ok`)"""
+    a = o["query_after"]
+    if "unreadable" in a or "unreadable" in o["cand_after"] or o["cand_after"] != o["cand_before"] or o["cand_after"]["scored"]:
+        return False
+    hs, ha = supplied.get("history"), a.get("history")
+    if (hs is None) != (ha is None) or a.get("user") != supplied.get("user") or not a.get("same_history_object", True):
+        return False
+    if hs is None:
+        return True
+    strip = lambda h: {k: ({n: v for n, v in h[k].items() if n != "rating"} if k == "fields" else h[k]) for k in h if k != "ids"}
+    return strip(hs) == strip(ha) and all(ha["raw_intact"].values()) and len(ha["fields"].get("rating", [])) == len(hs["fields"].get("rating", []))
+
+
 def coq_term(case, obs):
     if obs.get("train_error"):
         return None
@@ -200,7 +233,8 @@ def coq_term(case, obs):
         rec = (f"{{| c_cands := {clist(ids, cz)}; c_perm := {clist(perm, cz)}; c_half_a := {clist(ids[:h], cz)}; c_half_b := {clist(ids[h:], cz)}; "
                f"c_base := {c_obs(c['base'])}; c_repeat := {c_obs(c['repeat'])}; c_permuted := {c_obs(c['perm'])}; "
                f"c_a := {c_obs(c['half_a'])}; c_b := {c_obs(c['half_b'])}; c_again := {c_obs(c['again'])} |}}")
-        parts.append(f"call_ok tol32 {unknown_policy(case)} {vocab} {rec}")
+        parts.append(f"call_kept_ok tol32 {unknown_policy(case)} {vocab} {rec} {c_hist(c['supplied'])} "
+                     + clist([c[k] for k in KINDS], lambda o: f"({c_hist(o['query_after'])}, {'true' if rest_kept(c['supplied'], o) else 'false'})"))
     return "(" + ")\n && (".join(parts) + ")" if parts else "true"
 
 
@@ -211,7 +245,48 @@ def coq_term(case, obs):
 
 def describe(case, q):
     s = case["scorer"]
-    return f"{s['scorer']} {dict((k, v) for k, v in s.items() if k != 'scorer')} user={q['user']} history={q['history']}"
+    return f"{s['scorer']} {dict((k, v) for k, v in s.items() if k != 'scorer')} user={q['user']} history={q['history']}" + (
+        "" if q["history"] is None else f" as {q.get('hist_form', 'f32')}")
+
+
+def inputs_kept(name, case, q, c):
+    """the query handed to the six calls is, after every one of them, what the caller supplied"""
+    v = []
+    form = q.get("hist_form", "f32")
+    sup = c["supplied"]
+    want_user = q["user"] if not (q.get("form") == "list" and q["user"] is None and q["history"] is not None) else None
+    hs = sup.get("history")
+    if q["history"] is None:
+        if hs is not None or sup.get("user") != want_user:
+            v.append((f"{name}:query-not-as-constructed", f"{describe(case, q)}: the query object reads {sup}"))
+    else:
+        want = {"ids": [h[0] for h in q["history"]], "rating": [h[1] for h in q["history"]]}
+        got = None if hs is None else {"ids": hs["ids"], "rating": hs["fields"].get("rating", [])}
+        if got != want or sup.get("user") != want_user or hs["len"] != len(q["history"]):
+            v.append((f"{name}:history-not-as-constructed:{form}", f"{describe(case, q)}: a history built from {want} ({form}) reads {sup}"))
+    for k in KINDS:
+        a = c[k]["query_after"]
+        where = f"after the {k} call (calls so far on this query object: {', '.join(KINDS[: KINDS.index(k) + 1])})"
+        if "unreadable" in a:
+            v.append((f"{name}:history-modified:{form}", f"{describe(case, q)}: the query cannot be read back {where}: {a['unreadable']}"))
+            break
+        if a.get("user") != sup.get("user") or not a.get("same_history_object", True) or (a.get("history") is None) != (hs is None):
+            v.append((f"{name}:query-modified", f"{describe(case, q)}: the caller's query object was altered {where}: user {sup.get('user')} -> {a.get('user')}, "
+                      f"history object replaced: {not a.get('same_history_object', True)}"))
+            break
+        ha = a.get("history")
+        if ha is not None and ha != hs:
+            diffs = []
+            if ha["ids"] != hs["ids"] or ha["len"] != hs["len"] or ha["ordered"] != hs["ordered"]:
+                diffs.append(f"items {hs['ids']} -> {ha['ids']}")
+            for n in sorted(set(hs["fields"]) | set(ha["fields"])):
+                if hs["fields"].get(n) != ha["fields"].get(n) or hs["dtypes"].get(n) != ha["dtypes"].get(n):
+                    show = lambda d, t: None if d.get(n) is None else ([None if x is None else float(fparse(x)) for x in d[n]], t.get(n))
+                    diffs.append(f"field {n} {show(hs['fields'], hs['dtypes'])} -> {show(ha['fields'], ha['dtypes'])}")
+            diffs += [f"the supplied {n} array was written to" for n, ok in ha["raw_intact"].items() if not ok]
+            v.append((f"{name}:history-modified:{form}", f"{describe(case, q)}: the caller's history was altered {where}: " + "; ".join(diffs)))
+            break
+    return v
 
 
 def oracle(case, obs):
@@ -245,8 +320,10 @@ def oracle(case, obs):
             elif o["scores"] is not None and len(o["scores"]) != len(expect[k]):
                 v.append((f"{name}:score-count", f"{describe(case, q)}: {len(o['scores'])} scores for {len(expect[k])} items"))
                 bad = True
-            if o["input_scored"] or o["input_ids"] != expect[k]:
-                v.append((f"{name}:input-modified", f"{describe(case, q)}: the caller's candidate list was modified"))
+            if "unreadable" in o["cand_after"] or o["cand_after"] != o["cand_before"] or o["cand_after"]["scored"] or o["cand_after"]["ids"] != expect[k]:
+                v.append((f"{name}:input-modified", f"{describe(case, q)}: the caller's candidate list was modified by the {k} call: "
+                          f"{o['cand_before']} -> {o['cand_after']}"))
+        v.extend(inputs_kept(name, case, q, c))
         if bad:
             continue
         b = c["base"]
@@ -314,6 +391,12 @@ def counters(case, obs):
             yield "history-with-unknown-items"
         if q["history"] == []:
             yield "empty-history"
+        if q["history"] is not None:
+            yield "history-form=" + q.get("hist_form", "f32")
+            if q.get("hist_extra"):
+                yield "history-extra-field"
+            if q["history"] and all(h[0] in known for h in q["history"]):
+                yield "history-all-known=" + q.get("hist_form", "f32")
         if not q["items"]:
             yield "empty-candidate-list"
         if any(i not in known for i in q["items"]):
